@@ -228,6 +228,10 @@ def attribute(res):
         if clause and not clause['file'].startswith('/'):
             ctext = clause['hl'].strip() or clause_text(lines, clause['line_start'], clause['line_end'])
             ctext = extract.norm_ws(re.sub(r'//.*$', '', ctext))
+            if ctext == 'v_inv':
+                full = clause_text(lines, clause['line_start'], clause['line_end'])
+                mm = re.search(r'let v_inv: bool = (.*); assert\(v_inv\)', full)
+                ctext = 'INV ' + (mm.group(1) if mm else full)
             for ln in range(clause['line_start'], clause['line_end'] + 1):
                 if 1 <= ln <= len(lines):
                     for mm in TAG_RE.finditer(lines[ln - 1]):
@@ -246,6 +250,8 @@ def attribute(res):
             tags.add('C12')
             if f:
                 tags.update(f['tags'])
+        elif kind == 'assert' and ctext.startswith('INV '):
+            tags.add('C12')      # R4: always-on assert_invariant! panics iff the condition is false
         elif not tags and f:
             tags.update(f['tags'])
         oid = '%s::%s::%s::%s' % (res['unit'], fname, kind, ctext if kind != 'pre' else (stext + ' => ' + ctext))
